@@ -679,6 +679,51 @@ def build_engine_scenario(name):
             h.add_process(pr)
         h.add_testbench(tb)
         return h, obs, [cd.rst], "partial ctx.set() of one signal from several processes in one delta"
+    if name == "falling-edge-domains":
+        # registers clocked on the falling edge, one domain with an asynchronous reset and one with a synchronous reset:
+        # tick() resumes after the registers of THAT domain have updated, i.e. at its falling edges
+        m = Module()
+        da, ds = ClockDomain("da", clk_edge="neg", async_reset=True), ClockDomain("ds", clk_edge="neg")
+        m.domains += [da, ds]
+        inc = Signal(3, name="inc")
+        ca, cs, cp = Signal(3, name="ca"), Signal(3, name="cs"), Signal(3, name="cp")
+        m.d.da += ca.eq(ca + inc)
+        m.d.ds += cs.eq(cs + inc)
+        h = Harness(m)
+        h.declare(cp)
+        h.add_clock(da, 500, 1000)               # rises at 500, falls at 1000, 2000, ...
+        h.add_clock(ds, 500, 1000)
+        x0, x1 = fresh("x0", 3, False), fresh("x1", 3, False)
+
+        async def counter(ctx):                  # the da counter as a process (simulator guide, "replacing synchronous circuits")
+            async for clk_edge, rst_value, inc_v, cur in ctx.tick("da").sample(inc, cp):
+                if rst_value:
+                    ctx.set(cp, 0)
+                elif clk_edge:
+                    ctx.set(cp, cur + inc_v)
+
+        async def tb(ctx):
+            ca0, cs0, cp0 = ctx.get(ca), ctx.get(cs), ctx.get(cp)
+            ctx.set(inc, x0)
+            _, _, s_a = await ctx.tick("da").sample(ca)
+            obs.append(("time of the first falling edge (async-reset domain)", ctx.elapsed_time().femtoseconds, 1000))
+            obs.append(("tick samples ca from before the edge", s_a, ca0))
+            obs.append(("ca after the edge", ctx.get(ca), (ca0 + x0) & 7))
+            obs.append(("cs after the common edge", ctx.get(cs), (cs0 + x0) & 7))
+            obs.append(("process counter after the edge", ctx.get(cp), (cp0 + x0) & 7))
+            ctx.set(inc, x1)
+            _, _, s_s = await ctx.tick("ds").sample(cs)
+            obs.append(("time of the second falling edge (sync-reset domain)", ctx.elapsed_time().femtoseconds, 2000))
+            obs.append(("tick samples cs from before the edge", s_s, (cs0 + x0) & 7))
+            obs.append(("cs after the second edge", ctx.get(cs), (cs0 + x0 + x1) & 7))
+            obs.append(("ca after the second edge", ctx.get(ca), (ca0 + x0 + x1) & 7))
+            obs.append(("process counter after the second edge", ctx.get(cp), (cp0 + x0 + x1) & 7))
+            await ctx.posedge(da.clk)
+            obs.append(("rising edge time", ctx.elapsed_time().femtoseconds, 2500))
+            obs.append(("ca unchanged at the inactive edge", ctx.get(ca), (ca0 + x0 + x1) & 7))
+        h.add_process(counter)
+        h.add_testbench(tb)
+        return h, obs, [da.rst, ds.rst], "falling-edge domains (asynchronous and synchronous reset), counter process, tick/sample"
     if name == "three-testbenches":
         # a testbench woken by an earlier testbench's write runs before the testbenches added after it
         m = Module()
@@ -1064,7 +1109,7 @@ def main(tier, seed):
     jobs = []
     for i, spec in enumerate(pair_designs(tier, seed)):
         jobs.append({"id": f"pair-{i:04d}", "what": "pair", "spec": spec})
-    for name in ("two-domains", "counter-process", "two-testbenches", "partial-sets", "three-testbenches"):
+    for name in ("two-domains", "counter-process", "two-testbenches", "partial-sets", "three-testbenches", "falling-edge-domains"):
         jobs.append({"id": f"engine-{name}", "what": "engine", "scenario": name, "seed": seed, "orders": 12 if tier == "quick" else 120})
     for k in range(10 if tier == "quick" else 200):
         jobs.append({"id": f"engine-gen-{k:04d}", "what": "engine", "scenario": {"gen": seed * 1000 + k}, "seed": seed + k, "orders": 8 if tier == "quick" else 24})
